@@ -10,7 +10,7 @@ import h5py
 import common
 import x06_synth as S
 
-DEN = 24        # must equal DEN of specs/DataSetState.tla (checked against the "@@N" line it prints)
+DEN = 144       # must equal DEN of specs/DataSetState.tla (checked against the "@@N" line it prints)
 NONE = "<None>"
 UNSET = "<unset>"
 N12 = ["pksfile", "col4dfile", "col3dfile", "col2dfile", "grainsfile", "sparsefile", "icolfile", "pbpfile",
@@ -140,6 +140,11 @@ class Real(object):
                 if form == "saved":
                     if self.attempt(lambda: self.x.save()):
                         self.attempt(lambda: self.x.load())
+                elif form == "cached":
+                    pk = W.peaks["1"]
+                    S.make_peaks(self.x.pksfile, [tuple(p) for p in pk], 1 + max(p[5] for p in pk))
+                    self.attempt(lambda: self.x.pk2d)
+                    self.attempt(lambda: self.x.pk4d)
                 elif form == "sparse":
                     if self.attempt(lambda: self.M.AL.harvest_masterfile(self.x, self.x.sparsefile)):
                         self.x = self.new_obj()
@@ -687,7 +692,7 @@ def round_trip(R, o, tag):
 
 FLAG_OF = {"HistMatchesEdges": "bug_sinohist", "RoundTripOfb": "bug_load360", "RoundTripYstep": "bug_ystep",
            "BadScanBest": "bug_badscan", "SaveTarget": "bug_savedef", "SaveTotal": "bug_saveshape",
-           "CentresAreMotors": "bug_stalebins", "CompareSound": "bug_compare", "CompareRoundTrip": "bug_compare"}
+           "CentresAreMotors": "bug_stalebins", "Partition": "bug_stalebins", "CompareSound": "bug_compare", "CompareRoundTrip": "bug_compare"}
 
 
 def laws(R, pad, destructive=True):
